@@ -199,6 +199,37 @@ def prop_variants(w, rng):
                 res[f"{name}_{where}"] = (t, [float(x) for x in pd["weights"]])
             except Exception as e:
                 res[f"{name}_{where}"] = ("error:" + type(e).__name__ + ":" + str(e)[:80], None)
+        # the propagator's global routine over several (fake) ranks, one propagator object per rank with the LOCAL population size
+        # (down to one walker per rank): the ranks together must perform the serial comb on the rank-ordered population
+        for R in (2, 3):
+            if n % R != 0:
+                continue
+            loc = n // R
+            allw = tagged(n)
+
+            def fn(comm, r, cls=cls, uhf=uhf, loc=loc):
+                pr = cls(n_walkers=loc)
+                wk = allw[r * loc:(r + 1) * loc]
+                pd = {"key": key, "weights": jnp.array(w[r * loc:(r + 1) * loc], dtype=jnp.float64),
+                      "walkers": [wk, wk + TAG2] if uhf else wk}
+                pd = pr.stochastic_reconfiguration_global(pd, comm)
+                if uhf:
+                    tu, td = tags(pd["walkers"][0]), tags(pd["walkers"][1])
+                    t = tu if (tu is not None and td is not None and [x + int(TAG2) for x in tu] == td) else ("unpaired", tu, td)
+                else:
+                    t = tags(pd["walkers"])
+                return t, [float(x) for x in pd["weights"]]
+            try:
+                out, _ = fakempi.run_ranks(R, fn, seed=rng.randrange(1 << 30))
+                idx, wts, bad = [], [], None
+                for (t, ww) in out:
+                    if isinstance(t, tuple):
+                        bad = t
+                    idx += list(t) if isinstance(t, list) else [t]
+                    wts += ww
+                res[f"{name}_global_mpi{R}"] = (bad if bad is not None else idx, wts)
+            except Exception as e:
+                res[f"{name}_global_mpi{R}"] = ("error:" + type(e).__name__ + ":" + str(e)[:80], None)
     return zeta, res
 
 
@@ -312,8 +343,8 @@ def run(ctx):
     # prop-level entry points (zeta drawn from the key)
     pcases = []
     for i in range(6 if ctx.tier == "quick" else 40):
-        n = rng.choice([2, 3, 5, 8])
-        w = gen_weights(rng, n, KINDS[i % len(KINDS)])
+        n = (2, 3, 4, 6, 8, 5)[i % 6]
+        w = gen_weights(rng, n, KINDS[(i * 5 + 1) % len(KINDS)])
         zeta, res = prop_variants(w, rng)
         pcases.append((w, zeta, res))
         lines.append("comb " + rs(fr(zeta)) + " " + " ".join(rs(fr(x)) for x in w))
